@@ -273,6 +273,38 @@ def _is_normaliser(st, sec):
 
 
 # ----------------------------------------------------------------------------- C05.d / e
+def rule_f(model, rep):
+    """context-wide `truncate_error`: the top-level key and the exported `all__truncate_error` are aliases of one slot; an update()/copy()
+    hands both to _CryptConfig._init_options (old config first, new keywords last), so the slot store must be last-writer-wins"""
+    R = "C05.f-context-wide-option"
+    CTX = "passlib.context"
+    unit = model.unit(CTX)
+    gs = unit.assigns.get("_global_settings")
+    v = model.fold(unit, gs[0]) if gs else UNKNOWN
+    rep.check(v is not UNKNOWN and "truncate_error" in v, R, site(CTX, "_global_settings"), repr(v), "`truncate_error` is one of the keys a context passes to all its schemes")
+    fn = model.func(CTX, "_CryptConfig._init_options")
+    alias = [n for n in walk_no_nested(fn) if isinstance(n, ast.If) and "key in _global_settings" in ast.unparse(n.test) and any(ast.unparse(b) == "scheme = 'all'" for b in n.body)]
+    rep.check(len(alias) == 1, R, site(CTX, "_CryptConfig._init_options") + " alias", ast.unparse(alias[0].test) if alias else "<none>", "a bare global key is filed under the `all` pseudo-scheme (same slot as all__<key>)")
+    first_wins = [ast.unparse(n)[:80] for n in walk_no_nested(fn) if isinstance(n, ast.Call) and isinstance(n.func, ast.Attribute) and n.func.attr == "setdefault"
+                  and any(isinstance(x, ast.Name) and x.id == "value" for a in n.args[1:] for x in ast.walk(a))]
+    stores = [ast.unparse(n) for n in walk_no_nested(fn) if isinstance(n, ast.Assign) and isinstance(n.targets[0], ast.Subscript) and
+              (ast.unparse(n.value) == "value" or (isinstance(n.value, ast.Dict) and "value" in ast.unparse(n.value)))]
+    rep.check(not first_wins and len(stores) >= 2, R, site(CTX, "_CryptConfig._init_options") + " store", "; ".join(first_wins) or f"{len(stores)} overwriting stores",
+              "option values are stored by assignment (a later source entry replaces an earlier one that lands in the same slot)",
+              witness="ctx = CryptContext(['des_crypt'], truncate_error=False); ctx.update(truncate_error=True).hash('x' * 9) still truncates silently: the old all__truncate_error entry wins over the new keyword")
+    # source order of an update: existing config first, then the new keys
+    ld = model.func(CTX, "CryptContext.load")
+    ok, shown = False, "<merge block not found>"
+    for blk in [n for n in walk_no_nested(ld) if isinstance(n, ast.If) and "update" in ast.unparse(n.test) and "self._config" in ast.unparse(n.test)]:
+        seq = [ast.unparse(x) for x in blk.body]
+        shown = " | ".join(x for x in seq if "source" in x)
+        saved = next((x.targets[0].id for x in blk.body if isinstance(x, ast.Assign) and ast.unparse(x.value) == "source" and isinstance(x.targets[0], ast.Name)), None)
+        i_old = next((i for i, x in enumerate(blk.body) if isinstance(x, ast.Assign) and ast.unparse(x.targets[0]) == "source" and "self._config.iter_config(" in ast.unparse(x.value)), None)
+        i_new = next((i for i, x in enumerate(seq) if saved and x == f"source.update({saved})"), None)
+        ok = saved is not None and i_old is not None and i_new is not None and i_old < i_new
+    rep.check(ok, R, site(CTX, "CryptContext.load") + " merge order", shown, "update(): the new keys are overlaid on (come after) the existing configuration")
+
+
 def rule_de(model, rep):
     R = "C05.d-hash-time-only"
     n = 0
@@ -360,5 +392,6 @@ def run(model, rep):
     rule_b(model, rep)
     rule_c(model, rep)
     rule_de(model, rep)
+    rule_f(model, rep)
     from . import shared
     shared.fact_expand_settings(model, rep, "C05.e-declared-limit")
